@@ -1,6 +1,6 @@
 (** Property C17 — Whitespace hygiene of the output (output stage; chunk-text invariants are contracts). *)
 From Coq Require Import List ZArith Bool.
-From UV Require Import Model.Render Proofs.RenderProofs Proofs.RenderBreaks Model.NlMax Proofs.RenderTabs.
+From UV Require Import Model.Render Proofs.RenderProofs Proofs.RenderBreaks Proofs.RenderTrail Model.NlMax Proofs.RenderTabs.
 Import ListNotations.
 Local Open Scope Z_scope.
 
@@ -58,3 +58,31 @@ Theorem C17_file_ends_in_nl_count_breaks : forall o last sp l c,
   flat_map bv (render o last sp (l ++ [c])) = flat_map bcontrib l ++ repeat true (Z.to_nat (nl_count c)).
 Proof. exact file_end_breaks. Qed.
 Print Assumptions C17_file_ends_in_nl_count_breaks.
+
+(** the whole chunk list, configurations that indent with blanks only (indent_with_tabs = 0, pp_indent_with_tabs 0 or -1,
+    no alignment with tabs, no tab forced behind #define names): if no chunk text ends in a blank (contract K_textws,
+    evaluated by the oracle on every run), no NEWLINE chunk asks for blank-line indentation and comments leave nothing
+    pending, then nothing the writer emits directly in front of a line break is a blank or a tab *)
+Theorem C17_no_trailing_blanks : forall o,
+  indent_with_tabs o = 0 -> ppiwt o = 0 -> align_with_tabs o = false -> align_keep_tabs o = false ->
+  force_tab_after_define o = false ->
+  forall last l, last <> 13 -> Forall (tr_ok) l ->
+  forall a b x, render o last 0 l = a ++ x :: NL :: b -> ~ blank_sym x.
+Proof. exact no_trailing_blanks. Qed.
+Print Assumptions C17_no_trailing_blanks.
+
+(** non-vacuity: an ordinary text chunk ("a b") and a NEWLINE chunk satisfy the hypotheses *)
+Definition c17_chunk (k : ckind) (t : list Z) (n : Z) : chunk :=
+  {| ck := k; text := t; col := 1; col_indent := 1; nl_count := n; nl_col := 0; orig_col := 1; orig_prev_sp := 0;
+     preproc := false; was_aligned := false; after_tab := false; lvl_hack := false; is_pp_define := false;
+     is_string := false; is_string_multi := false; is_pp_ignore := false; is_comment_kind := false; seg := [];
+     seg_column := 1; seg_spaces := 0; seg_last := 0; seg_did_nl := false |}.
+Example C17_tr_ok_inhabited : Forall tr_ok [c17_chunk CKOther [97; 32; 98] 0; c17_chunk CKNewline [] 2].
+Proof.
+  constructor; [|constructor; [|constructor]].
+  - unfold tr_ok. cbn [ck c17_chunk text is_string_multi is_comment_kind]. right.
+    split; [|split; [|split; reflexivity]].
+    + repeat constructor; discriminate.
+    + unfold nonblank_end. cbn. discriminate.
+  - unfold tr_ok. cbn. discriminate.
+Qed.
